@@ -46,6 +46,8 @@ fn decode_check(ctx: &mut Ctx, lock: &Scalar, secret: &Scalar, index: u8, what: 
         Err(e) => vec![Real::V(if e.contains("does not produce a valid") { "invalid-secret".into() } else if e.contains("does not produce the provided") { "mismatched-pair".into() } else { format!("other-error:{}", e) })],
     };
     let _ = ctx.expect(&op, &reals);
+    // … and with the model's own SHA3 (Model/Sha3.lean): nothing about the hash is supplied by the harness
+    let _ = ctx.expect(&format!("revpair-decode-sha3 {} {} {:x}", hex_s(lock), hex_s(secret), index), &reals);
     let should = canonical(&d).map(|l| l == *lock).unwrap_or(false);
     ctx.count(&format!("revpair-decode:{}:{}", what, r.is_ok()));
     if r.is_ok() != should {
@@ -166,6 +168,7 @@ fn generate_cases(ctx: &mut Ctx, idx: usize) {
         let digests: Vec<String> = (0..=upto).map(|i| hex::encode(digest_of(&secret, i))).collect();
         let stream = stream_arg(&book, &rng.log, &[]);
         let _ = ctx.expect(&format!("revpair-new {} {}", digests.join(","), stream), &[Real::V("ok".into()), Real::S(lock), Real::S(sec), Real::N(index as u128), Real::N(0)]);
+        let _ = ctx.expect(&format!("revpair-new-sha3 {}", stream), &[Real::V("ok".into()), Real::S(lock), Real::S(sec), Real::N(index as u128), Real::N(0)]);
         let inv = sec == secret && canonical(&digest_of(&sec, index)) == Some(lock) && (0..index).all(|i| canonical(&digest_of(&sec, i)).is_none());
         ctx.count(&format!("revpair-new:index={}:{}", index.min(3), if inv { "invariant" } else { "BROKEN" }));
         if !inv {
